@@ -421,6 +421,14 @@ func (*Ufs) Create(req *SrvReq) {
 		file, e = os.OpenFile(path, omode2uflags(tc.Mode), 0)
 	}
 
+	if e != nil && file == nil && tc.Perm&DMSYMLINK != 0 && os.IsNotExist(e) {
+		/* the symlink was created but what it points to cannot be
+		   opened (dangling or not there yet): the create succeeded */
+		if t, le := os.Readlink(path); le == nil && t == tc.Ext {
+			e = nil
+		}
+	}
+
 	if e != nil {
 		req.RespondError(toError(e))
 		return
